@@ -41,9 +41,9 @@ theorem nbitsAfter_pos (nb t : Nat) (h : 0 < nb) : 0 < nbitsAfter nb t := by
 
 theorem feed_nbits_pos (st : LzwSt) (c : Nat) (h : 0 < st.nbits) (st' : LzwSt) (x : Bytes)
     (hf : feed st c = .ok st' x) : 0 < st'.nbits := by
-  unfold feed at hf
+  rw [feed_lit] at hf
   repeat' (split at hf)
-  all_goals (try (simp only [feedGrow] at hf))
+  all_goals (try (simp only [feedGrow_lit] at hf))
   all_goals first
     | (injection hf with h1 h2; subst h1; first | exact h | exact nbitsAfter_pos _ _ h | decide)
     | cases hf
